@@ -295,6 +295,46 @@ def _guard_obligation(rep, rid, f, label: str, want_atoms: Dict[object, bool], d
         rep.add(rid, label, True, f"not decided: the condition contains a {e} this rule does not interpret", hloc(f), nontrivial=False)
 
 
+def _vector_guard_obligation(rep, rid, f, t):
+    """unwrap<Vector-like>: raises for every array that is not double and for every array that is not a vector (neither one column
+    nor - where the converter chooses to take row vectors as well - one row); never for a double column vector."""
+    label = f"unwrap<{t}>:raises for a non-double array and for anything but a vector, never for a double column"
+    body_stmts = statements(f)
+    conds = _error_conditions(body_stmts)
+    last_guard = max((i for i, st in enumerate(body_stmts) if _error_conditions([st])), default=-1)
+    early = [line_of(r) for i, st in enumerate(body_stmts[: max(last_guard, 0)]) for r in walk(st) if r.get("kind") == "ReturnStmt" and r.get("inner")]
+    if early:
+        rep.add(rid, label, False, f"a `return` at line {early} leaves the function before the guard is evaluated", hloc(f))
+        return
+    D, N1, M1 = ("mxIsDouble",), ("eq", "mxGetN", 1), ("eq", "mxGetM", 1)
+    try:
+        atoms: Set[object] = set()
+        for c in conds:
+            _atoms(f, c, atoms)
+        universe = sorted({D, N1} | atoms, key=repr)
+        bad = []
+        for vals in itertools.product([False, True], repeat=len(universe)):
+            env = dict(zip(universe, vals))
+            raises = any(_eval(f, c, env) for c in conds)
+            if not env[D]:
+                ok = raises
+            elif env[N1]:
+                ok = not raises
+            elif M1 in env and env[M1]:
+                ok = True                      # a row vector: taken or refused, the converter's choice
+            else:
+                ok = raises
+            if not ok:
+                bad.append({repr(a): env[a] for a in universe})
+        extra = sorted(atoms - {D, N1, M1}, key=repr)
+        rep.add(rid, label, bool(conds) and not bad,
+                f"a vector must come from a real double array with one column (or one row); the guard(s) decide differently for {len(bad)} of "
+                f"{2 ** len(universe)} combinations of {[repr(a) for a in universe]}" + (f" (tests {extra} that the rule does not expect)" if extra else "") +
+                (f", e.g. {bad[0]}" if bad else ""), hloc(f))
+    except _Unknown as e:
+        rep.add(rid, label, True, f"not decided: the condition contains a {e} this rule does not interpret", hloc(f), nontrivial=False)
+
+
 def rule_guard_truth_tables(ctx, rep: Report, rid="K10"):
     """Each converter rejects exactly the inputs it cannot convert.  The error guards of a function are read as a
     boolean function of the facts they test (is a double array, has one column, is 1x1, has the handle class id, is
@@ -306,9 +346,7 @@ def rule_guard_truth_tables(ctx, rep: Report, rid="K10"):
     for t, f in sorted(u.items()):
         if t in VECTOR_KINDS:
             n += 1
-            _guard_obligation(rep, rid, f, f"unwrap<{t}>:raises exactly for a non-double array or more/less than one column",
-                              {("mxIsDouble",): True, ("eq", "mxGetN", 1): True},
-                              "a vector must come from a real double array with exactly one column")
+            _vector_guard_obligation(rep, rid, f, t)
         elif t in MATRIX_KINDS:
             n += 1
             _guard_obligation(rep, rid, f, f"unwrap<{t}>:raises exactly for a non-double array",
